@@ -153,9 +153,9 @@ class TreeTerminationDetection : public TerminationDetection {
   struct TokenHolder {
     friend class TerminationDetection;
     // incoming from above
-    volatile long down_token;
+    std::atomic<long> down_token;
     // incoming from below
-    volatile long up_token[num];
+    std::atomic<long> up_token[num];
     // my state
     long processIsBlack;
     bool hasToken;
